@@ -73,4 +73,14 @@ PROPS = {
                   {"engine": "push", "test": "TestProp_C17_Select", "quick": 320000, "thorough": 1600000, "shards": {"quick": 8, "thorough": 16}}],
         "guards": ["signed-ok", "no-valid-version", "secret-unloadable", "nt:>=2-valid", "at-boundary-exactly", "tie-on-valid_from", "path-with-escapes"],
     },
+    "C03": {
+        "rule": "dispatcher tier: (1) lease budget - for generated target timeouts / concurrency / slack the lease TTL the dispatcher requests must exceed "
+                "dequeue batch x slowest target timeout (computed with the dispatcher's own routeDequeueBatch/routeLeaseTTL); (2) live PushDispatcher with 1-8 "
+                "workers, 1-2 targets, memory or SQLite, targets that hold a request 0-3 ms and fail the first 0-2 attempts: never two Deliver calls for one "
+                "message in flight at once, never a delivery after a 2xx",
+        "assumptions": ["the live tier runs in real time: interleavings are sampled; no timing value is a correctness signal (a budget overrun is inconclusive)"],
+        "guards": ["batch>1", "concurrency-8"],
+        "parts": [{"engine": "push", "test": "TestProp_C03_LeaseBudget", "quick": 5000, "thorough": 200000},
+                  {"engine": "push", "test": "TestProp_C03_LiveDispatcher", "quick": 120, "thorough": 4000, "shards": {"quick": 4}, "shrinktime": "10s"}],
+    },
 }
